@@ -50,6 +50,7 @@ func c13Task(r *core.Rng, tier string) core.TaskSpec {
 	if tier == "thorough" {
 		o.MaxOps = 16
 		o.LargePct = 1
+		o.ManyPct, o.ManyMax = 1, 40
 	}
 	w := core.GenHistory(r, o)
 	t := core.TaskSpec{Kind: "writer", W: w}
